@@ -15,6 +15,14 @@ CLAIMED = {
              ref='DESIGN.md section 4 C06'),
  'C13': dict(text='For 80+ public functions x enumerated argument templates x option variants, every array argument carries an unconstrained symbolic diagonal; after the call (return or exception) z3 proves cell by cell that the argument still holds its original terms on every explored path (path cap per case); a concrete non-zero diagonal variant backs up functions whose dependence on the diagonal is non-linear.',
              ref='DESIGN.md section 4 C13'),
+ 'C15': dict(text='kcore_bu / kcore_bd / score_wu run on symbolic adjacency bits (all graphs of the size in one exploration), symbolic k (Int) / s and weights (Real); z3 proves membership-meets-bound, output = input restricted to the core, reported size, maximality against all 2^n node subsets, and nestedness for k and k+1; peel lists and k-coreness are checked per labelled graph (bits forked) against an independent peeling.',
+             ref='DESIGN.md section 4 C15'),
+ 'C16': dict(text='get_components / number_of_components on a symbolic symmetric real matrix with arbitrary diagonal: one path per labelled graph on <= 5 nodes (all 1024+), same-label iff connected in the Boolean closure, labels 1..m, sizes, agreement with distance_bin / breadthdist / reachdist, and BCTParamError on every path for asymmetric input.',
+             ref='DESIGN.md section 4 C16'),
+ 'C17': dict(text='threshold_proportional with all entries and p symbolic (ties, zeros and the .5 rounding boundary are solver cases; argsort modelled as an arbitrary sorted permutation): kept count = min(round-half-away(p x possible), present), strongest kept, diagonal cleared, symmetry, copy semantics; threshold_absolute, binarize, normalize, invert (twice), weight_conversion and teachers_round against their definitions on fully symbolic 3x3 matrices.',
+             ref='DESIGN.md section 4 C17'),
+ 'C20': dict(text='Generators run with every RandomState draw symbolic and K symbolic over its feasible range: shape, 0/1 values, empty diagonal, exact connection count, symmetry, band structure of the ring lattice, reported count of the fractal generator, and in/out degree sequences of makerandCIJdegreesfixed, proved on every explored path.',
+             ref='DESIGN.md section 4 C20'),
 }
 NA = {}
 def repo_hook_commits():
